@@ -23,7 +23,10 @@ def rule_node_sem(ctx: RuleContext, p: Program, rid: str, max_items: int = 3) ->
                   'item)*] <context>: for every integer index and every slice (bounds over the whole range and beyond, steps +-1, +-2) and 0..2 '
                   'new items, the item list afterwards is what a Python list gives (same exceptions), and the store holds exactly the canonical '
                   'layout of that list -- every surviving item with its own tokens, contiguous and in order, one separator run between '
-                  'neighbours, nothing of a removed item left, the context untouched; a refused call leaves both as they were' % max_items)
+                  'neighbours, nothing of a removed item left, the context untouched; a refused call leaves both as they were. Read side: every Sequence '
+                  'method the wrapper spells itself (index with every start / stop, count, in, iteration both ways, item and slice reads, remove) on '
+                  'lists whose items may have EQUAL CONTENT (patterns over two letters; models compare by content) answers as a Python list of such '
+                  'values does -- one pass, the first element that is the argument or equals it' % max_items)
     m = p.module('models.internal.properties')
     w = p.cls('RepeatedNodeWrapper', 'models.internal.properties')
     idx_mod = p.module('models.internal.indexes')
@@ -257,6 +260,108 @@ def rule_node_sem(ctx: RuleContext, p: Program, rid: str, max_items: int = 3) ->
         for sel in [s for k in range(0, n + 1) for s in itertools.combinations(range(n), k)]:
             run_case(n, 'drop_many', lambda nv, sel=sel: [list(sel)], lambda r, nv, sel=sel: r.__setitem__(slice(None), [x for j, x in enumerate(r) if j not in sel]),
                      f'w.drop_many({list(sel)})')
+    # ---- the read side (round 10): every Sequence method the wrapper spells itself, on lists that hold items of EQUAL CONTENT
+    # (the same posting twice, a repeated tag): models compare by content, so `index`, `count`, `in`, `remove` must answer as a list of
+    # such values does -- one pass, first element that is the argument or equals it
+    class _V:
+        def __init__(self, val: str, label: str) -> None:
+            self.val, self.label = val, label
+
+        def __eq__(self, o: Any) -> bool:
+            return isinstance(o, _V) and o.val == self.val
+
+        __hash__ = None     # type: ignore[assignment]
+
+    class ReadInterp(Interp):
+        def same(self, x: Any, y: Any) -> bool:                    # type: ignore[override]
+            if isinstance(x, possem.Obj) and isinstance(y, possem.Obj) and x.cls == 'Item' and y.cls == 'Item':
+                return x is y or x.f.get('val') == y.f.get('val')
+            return super().same(x, y)
+
+    read_names = ['index', 'count', '__contains__', '__iter__', '__reversed__', '__getitem__', '__len__', 'remove']
+    own_read = [nm for nm in read_names if isinstance(w.lookup(nm), FuncInfo)]
+    read_cases = 0
+    for n in range(0, max_items + 1):
+        for pattern in itertools.product('ab', repeat=n):
+            for meth in own_read:
+                fn = w.lookup(meth)
+                n_par = len(fn.node.args.args) + len(fn.node.args.posonlyargs) - 1
+                queries: list = [None]
+                if meth in ('index', 'count', '__contains__', 'remove'):
+                    queries = [('own', j) for j in range(n)] + [('fresh', 'a'), ('fresh', 'b'), ('fresh', 'c')]
+                for q in queries:
+                    extra_sets: list = [()]
+                    if meth == 'index' and n_par >= 3:
+                        extra_sets = [()] + [(a_,) for a_ in range(-n - 1, n + 2)] + [(a_, b_) for a_ in range(-n - 1, n + 2) for b_ in range(-n - 1, n + 2)]
+                    elif meth == '__getitem__':
+                        extra_sets = [(i_,) for i_ in range(-n - 1, n + 2)] + [(slice(a_, b_, st_),) for a_ in bounds(n) for b_ in bounds(n) for st_ in (None, -1, 2, -2)]
+                    for extra in extra_sets:
+                        me, doc, items, left, right = build(n)
+                        vs = []
+                        for it_, ch in zip(items, pattern):
+                            it_.f['val'] = ch
+                            vs.append(_V(ch, it_.label))
+                        arg_i = arg_v = None
+                        if q is not None:
+                            if q[0] == 'own':
+                                arg_i, arg_v = items[q[1]], vs[q[1]]
+                            else:
+                                arg_i = mk_item(f'other item reading {q[1]!r}')
+                                arg_i.f['val'] = q[1]
+                                arg_v = _V(q[1], arg_i.label)
+                        ref = list(vs)
+                        want_exc, want = None, None
+                        try:
+                            if meth in ('__iter__', '__reversed__'):
+                                want = [x.label for x in getattr(ref, meth)()]
+                            elif meth == '__len__':
+                                want = len(ref)
+                            elif meth == '__getitem__':
+                                r_ = ref[extra[0]]
+                                want = [x.label for x in r_] if isinstance(r_, list) else r_.label
+                            elif meth == 'remove':
+                                ref.remove(arg_v)
+                                want = [x.label for x in ref]
+                            else:
+                                want = getattr(ref, meth)(arg_v, *extra)
+                        except (IndexError, ValueError) as ex:
+                            want_exc = type(ex).__name__
+                        interp = ReadInterp(me, doc)
+                        read_cases += 1
+                        got_exc, got = None, None
+                        try:
+                            r_ = interp.call_function(fn, [me] + ([arg_i] if q is not None else []) + list(extra), {})
+                            if meth in ('__iter__', '__reversed__'):
+                                got = [x.label for x in interp.iter_of(r_, fn.node)]
+                            elif meth == '__getitem__':
+                                got = [x.label for x in interp.iter_of(r_, fn.node)] if isinstance(r_, (list, tuple, possem._It)) else getattr(r_, 'label', r_)
+                            elif meth == 'remove':
+                                got = [x.label for x in me.f['_repeated'].f['items']]
+                            else:
+                                got = r_
+                        except possem.Raised as ex:
+                            got_exc = str(ex).split(':')[0].split('(')[0].strip()
+                        except (IndexError, ValueError) as ex:
+                            got_exc = type(ex).__name__
+                        shown = (f'items reading [{", ".join(pattern)}] (equal letters: equal content), w.{meth}('
+                                 f'{"" if q is None else ("item" + str(q[1]) if q[0] == "own" else "another item reading " + repr(q[1]))}'
+                                 f'{", " if q is not None and extra else ""}{", ".join(map(str, extra))})')
+                        if want_exc or got_exc:
+                            if (want_exc or '') not in (got_exc or '') or not want_exc:
+                                problems.setdefault(meth, f'{shown}: {"raises " + got_exc if got_exc else "answers " + repr(got)}, a list {"raises " + want_exc if want_exc else "answers " + repr(want)}')
+                            continue
+                        if got != want or (isinstance(want, bool) != isinstance(got, bool)):
+                            problems.setdefault(meth, f'{shown}: answers {got!r}, a list of values answers {want!r}')
+                        elif meth == 'remove':
+                            gone = [x for x in items if x.label not in want]
+                            lp = layout_problem(doc, [x for x in items if x.label in want], left, right, gone)
+                            if lp:
+                                problems.setdefault(meth, f'{shown}: {lp}')
+    cases += read_cases
+    for meth in own_read:
+        fn = w.lookup(meth)
+        ctx.check(meth not in problems, rid, f'models.internal.properties:RepeatedNodeWrapper.{meth}', 'list semantics with items of equal content',
+                  f'RepeatedNodeWrapper.{meth}: {problems.get(meth, "")}', fn.where if isinstance(fn, FuncInfo) else '', note=f'{read_cases} read cases')
     if cases < 2000:
         raise AnalysisError(f'NODE-SEM: only {cases} cases evaluated')
     for meth in ('__delitem__', '__setitem__', 'insert', 'append', 'extend', 'pop', 'clear', 'drop_many'):
